@@ -60,7 +60,7 @@ func (sc xrSecretCase) build(p placement) (*world, expectation) {
 	})
 	xr := env.Sim.Get(env.XRKey(xrName))
 	data := map[string]any{"old": "b2xk"}
-	if sc.SameData && p == foreign {
+	if sc.SameData && p.isForeign() {
 		// What the publisher would write (P&T composes no details here): a no-op by content must still not adopt.
 		data = map[string]any{}
 		if sc.Pipeline {
@@ -142,7 +142,12 @@ func (cc claimCase) build(p placement) (*world, expectation) {
 	// The XR the claim references.
 	bound := own
 	if cc.Variant == "bind" || cc.Variant == "delete" {
+		// An XR is bound through spec.claimRef, not through owner references: the
+		// owner-reference shapes of the foreign placement collapse to "bound to another claim".
 		bound = p
+		if p.isForeign() {
+			bound = foreign
+		}
 	}
 	xrSpec := map[string]any{"param": "PRE"}
 	switch bound {
@@ -193,7 +198,7 @@ func (cc claimCase) build(p placement) (*world, expectation) {
 		e.target = xrKey
 		e.noController = true
 		e.gone = cc.Variant == "delete"
-		if p == foreign {
+		if p.isForeign() {
 			w.protected = append(w.protected, xrKey)
 		}
 	case "dest":
@@ -212,9 +217,10 @@ func (cc claimCase) build(p placement) (*world, expectation) {
 		// destination is written. p == foreign: the source is controlled by another XR or by nobody.
 		src := secretObj(sysNS, "xr-conn", typeConnection, map[string]any{"user": "YWRtaW4="})
 		dstKey := verifsim.Key{Kind: "Secret", Namespace: cmKey.Namespace, Name: "claim-conn"}
-		if p == foreign {
+		if p.isForeign() {
 			if cc.SourceBad == "foreign" {
-				setController(src, foreign, nil, refTo(otherXR, true))
+				// The acting owner of the copy is the bound XR ("from"): a plain reference to it is not control.
+				setController(src, p, refTo(xr, true), refTo(otherXR, true))
 			}
 			e.kind = "source-secret:" + cc.SourceBad
 			e.target = verifsim.KeyOf(src)
@@ -251,7 +257,7 @@ func TestVerifC02Claims(t *testing.T) {
 			cc.SecretType = rapid.SampledFrom([]string{typeConnection, typeOpaque}).Draw(t, "type")
 		case "source":
 			cc.SourceBad = rapid.SampledFrom([]string{"foreign", "uncontrolled"}).Draw(t, "sourceBad")
-			cc.Place = foreign
+			cc.Place = rapid.SampledFrom([]placement{foreign, foreignOwnPlain, foreignExtraPlain}).Draw(t, "sourcePlacement")
 		}
 		runCase(rec, cc.build, cc.Place, 2, func() any { return cc }, tfail(t))
 	})
